@@ -43,7 +43,8 @@ def build() -> dict:
             'engine': 'sa',
             'level_claimed': {
                 'category': 'other',
-                'text': getattr(mod, 'LEVEL_TEXT', mod.EXPLANATION),
+                'text': getattr(mod, 'LEVEL_TEXT', mod.EXPLANATION) + ' The rules of this check, each with what it decides: '
+                        + '; '.join(f'{r.id}: {r.title}' for r in mod.RULES) + '.',
                 'design_ref': f'DESIGN.md section 3, {p}',
             },
             'level_note': getattr(mod, 'LEVEL_NOTE', '; '.join(mod.ASSUMPTIONS)),
